@@ -1,5 +1,3 @@
-//go:build verif && c08wip
-
 package props
 
 // C08 - Block integrity: id, merkle root and proposer signature bind header and body.
